@@ -88,14 +88,14 @@ PROPS = {
         "level_text": ("The engine model Db/Txn.v is the executable reference model of RFC 7047 5.1-5.2 the property asks for; Props/C03.v (axiom-free) shows it says what "
                        "the RFC says: select = exactly the matching rows, update/mutate/delete transform exactly the matching rows and count them, insert stores the "
                        "default-filled row under the reported uuid, later operations see earlier ones (exec_ops over ops1++ops2), every mutator's effect on integers, "
-                       "sets and maps, domain error on division by zero, immutable columns never change. Tied to the code by executing generated transaction histories "
+                       "sets and maps (integers are 64-bit: the exact result when it is representable, a range error otherwise), domain error on division by zero, immutable columns never change. Tied to the code by executing generated transaction histories "
                        "on the real in-memory database (operations through JSON, Transact, Commit) and comparing every result, the whole database and the reference "
                        "index after every transaction; a disagreement is itself the property's failure (replay = the history)."),
         "level_note": ("Trusted: Coq kernel + vm_compute, std++; Go harness; the model is hand-written. Known deviations from the RFC kept in the model as the code behaves "
-                       "and reported as KNOWN-FINDING: arithmetic mutators on set columns and any mutation of an optional column are rejected. Integers beyond 2^53, "
-                       "integer overflow and non-finite reals are outside the model. Operations built through the client model API are not yet covered."),
+                       "and reported as KNOWN-FINDING: arithmetic mutators on set columns and any mutation of an optional column are rejected. Integers beyond 2^53 "
+                       "that are not exact as JSON numbers and non-finite reals are outside the model. Operations built through the client model API are not yet covered."),
         "rule": ("histories of 1..6 (thorough ..10) transactions of 1..4 (..6) operations over a 22-column table of all kinds plus a second table: insert/select/update/"
-                 "mutate/delete/wait(0), conditions biased to hit stored values, 5% deliberately failing operations. Non-trivial: the transaction commits and some "
+                 "mutate/delete/wait(0), conditions biased to hit stored values, 5% deliberately failing operations; four fixed histories of integer arithmetic at the ends of the 64-bit range. Non-trivial: the transaction commits and some "
                  "operation inserts, changes or returns >= 1 row."),
         "tags": {1: "operation results", 2: "database contents after the transaction", 3: "reference index (GetReferences)"},
         "assumptions": ["values respect the column types (ill-typed ones are a separate 5% stream expected to fail)", "wait has timeout 0"],
@@ -212,18 +212,23 @@ PROPS = {
                        "any size, maps from atoms to atoms or sets with pairwise different keys), rows, conditions (all 8 functions) and mutations (all 7 mutators) of such "
                        "values, and for base types with every constraint member, column types (key, value, min, max, unlimited) and columns (ephemeral, mutable, inferred "
                        "extended type); the pinned base-type codec is refuted (minLength lost). Tied to the code by comparing the implementation's encoding with the model's "
-                       "and the implementation's decoding of it with the model's on generated values. Partial: operations (10 kinds with optional members), results, errors, "
-                       "table updates in both formats, monitor requests/replies and whole schemas are assembled by encoding/json's struct-tag codec, which is not modelled: for "
-                       "them only the direct round-trip oracle on the implementation decides (select keeps its empty where, error <-> result mapping, isRoot, indexes)."),
+                       "and the implementation's decoding of it with the model's on generated values. The struct codecs of encoding/json are modelled field by field (omitempty, "
+                       "nil pointers, null): operations of all ten kinds with every optional member (Wire/Operation.v), and operation results, table updates in both formats "
+                       "(rows nil / present but empty / filled, nil row updates, \"delete\": null), monitor requests (columns absent / empty / listed, partial selects) and "
+                       "monitor_cond_since replies (Wire/Messages.v), each with its round-trip theorem and tied by value / encoding / decoding triples. Partial: whole schemas "
+                       "(the map of tables around the modelled columns), the 12 error kinds and the JSON-RPC envelopes are decided by the direct round-trip oracle on the "
+                       "implementation only (error <-> result mapping, isRoot, indexes)."),
         "level_note": ("Trusted: Coq kernel + vm_compute, std++; Go harness incl. its normal form for comparing Go values (numbers as float64, nil = empty, a singleton set is "
                        "its element, as RFC 7047 5.1 writes it). Byte-level JSON syntax is encoding/json's."),
         "rule": ("60%: values/sets/maps/uuids/rows/conditions/mutations over all atom types (strings include \"set\", \"map\", \"uuid\", the empty string and non-ASCII text; named "
                  "and real uuids; sets of 0..4; maps of 0..3 pairs incl. sets of uuids as values); 30%: base types / column types / columns generated as JSON with every "
-                 "optional member present or absent; then as many implementation-only round trips of operations, results, updates, monitor requests and replies, whole "
-                 "schemas (1..3 tables, indexes, isRoot) and the 12 error kinds. Non-trivial: the value is not a bare atom."),
+                 "optional member present or absent (integer bounds up to the ends of int64, read back digit by digit); then as many operations, results, updates of both "
+                 "formats, monitor requests and monitor_cond_since replies against the model and through the implementation-only round trip, and whole "
+                 "schemas (1..3 tables, indexes, isRoot) and the 12 error kinds through the latter. Non-trivial: the value is not a bare atom."),
         "tags": {1: "the implementation's encoding differs from the model's", 2: "decoding the implementation's encoding: model and implementation differ",
-                 3: "the decoded value differs from the original"},
-        "assumptions": ["numbers are float64 values as encoding/json produces them; integers are within +-2^53"],
+                 3: "the decoded value differs from the original", 11: "operation: encoding", 12: "operation: decoding", 13: "operation: decoded value differs from the original",
+                 21: "message: encoding", 22: "message: decoding", 23: "message: decoded value differs from the original"},
+        "assumptions": ["numbers in rows are float64 values as encoding/json produces them (integers within +-2^53); integer bounds of schemas are exact up to the ends of int64"],
     },
     "C09": {
         "level_text": ("Theorems (Props/C09.v, axiom-free, on top of C12's wire theorems): for every column type (atoms, enums, uuids/references, optional, sets with any "
